@@ -178,4 +178,42 @@ def run(tier, seed, replay=None):
             lo, hi = ex["first"]
             ck.fail("inexact-expansion", f"exhaustive tiling check: {ex['bad']} ranges do not tile, first {ex['first']}",
                     {"input": {"op": "complex", "strategy": 1, "Lo": lo, "Hi": hi}})
+    # system level (bess.go addPDR/delPDR): the port columns of the pdrLookup entries installed for accepted PDRs -
+    # SDF filters and PFD-backed application filters with ports on either side - are exactly the Exact-strategy
+    # product of the PDR's two ranges, and an unrepresentable pair installs nothing (never an approximation)
+    try:
+        import random
+        import l1
+        from props.l1common import run_l1
+        lcases = []
+        for k in range(100 if tier == "quick" else 1200):
+            sub = random.Random(rng.getrandbits(64))
+            case, intents, views = l1.random_history(sub, cfg=l1.default_cfg(), length=sub.choice([8, 14]), restarts=False)
+            lcases.append((case, intents, views))
+        for tag, case, intents, views in l1.corpus_scenarios():
+            if tag == "F14":
+                lcases.append((case, intents, views))
+        lobs = run_l1(build_harness(), [c[0] for c in lcases], workers=8, tag="c17l1")
+        npdr = 0
+        for (case, intents, views), ob in zip(lcases, lobs):
+            ck.evaluations += 1
+            for i, o in enumerate(ob):
+                if "panic" in o or o.get("blocked"):
+                    ck.fail("agent:died", f"event {i}: agent panicked or blocked while installing port rules ({o.get('panic')})", {"input": case, "event": i})
+                    break
+                act = l1.tables_of(o)["pdrLookup"]
+                for s_ in o["store"]:
+                    for p_ in s_["pdrs"]:
+                        npdr += 1
+                        rules = l1.cartesian(p_["f_sp"], p_["f_dp"])
+                        mine = sorted((k[5], k[13], k[6], k[14]) for k, v in act.items() if v[3] == s_["lseid"] and v[2] == p_["id"])
+                        want = sorted(rules) if rules is not None else []
+                        if mine != want:
+                            ck.fail("agent:pdr-port-entries",
+                                    f"event {i}: PDR {p_['id']} of session {s_['lseid']} has port ranges {p_['f_sp']} x {p_['f_dp']} but its pdrLookup "
+                                    f"entries carry (sport, smask, dport, dmask) = {mine[:6]}..., expected {want[:6]}...", {"input": case, "event": i})
+                            break
+        ck.notes["agent_level_pdrs_checked"] = npdr
+    except HarnessError as e:
+        ck.tie("agent-level histories run", False, str(e)[-800:])
     return ck.finish()
